@@ -29,7 +29,7 @@ type c41Case struct {
 	MaxResp   int64        `json:"max_response_bytes"`
 	MaxExt    int64        `json:"max_externalized_response_bytes,omitempty"`
 	External  bool         `json:"external"`        // server has external storage (results above 512 B are uploaded)
-	ExtInput  string       `json:"external_input"`  // "" | params | params+logs | two-data | broken
+	ExtInput  string       `json:"external_input"`  // "" | params | params+logs | two-data | broken | cut-in-second | cut-eos | xin32 | xin64
 	Version   string       `json:"version,omitempty"`
 }
 
@@ -79,8 +79,8 @@ func genC41(t *rapid.T) c41Case {
 			}
 		}
 	}
-	if c.External && c.Transport == "http" && (c.Call.Kind == "unary" || c.Call.Kind == "stream") && rapid.IntRange(0, 2).Draw(t, "extin") == 0 {
-		c.ExtInput = []string{"params", "params+logs", "two-data", "broken", "xin32", "xin64", "xin32"}[rapid.IntRange(0, 6).Draw(t, "extink")]
+	if c.External && c.Transport == "http" && (c.Call.Kind == "unary" || c.Call.Kind == "stream") && rapid.IntRange(0, 1).Draw(t, "extin") == 0 {
+		c.ExtInput = []string{"params", "params+logs", "two-data", "broken", "cut-in-second", "cut-in-second", "cut-eos", "xin32", "xin64", "xin32"}[rapid.IntRange(0, 9).Draw(t, "extink")]
 		if strings.HasPrefix(c.ExtInput, "xin") {
 			// exchange inputs supplied through external pointers (xin32: castable int32 column)
 			c.Call = lib.CallSpec{Kind: "stream", Method: []string{"s_exch", "s_exch_h", "s_dyn"}[rapid.IntRange(0, 2).Draw(t, "xm")], CancelAt: -1,
@@ -234,6 +234,15 @@ func originHandler(w http.ResponseWriter, r *http.Request) {
 		body = lib.EncodeStream(lib.ScriptParamSchema, logb, params, logb)
 	case "two-data":
 		body = lib.EncodeStream(lib.ScriptParamSchema, params, params)
+	case "cut-in-second":
+		// the upload was cut off inside its second batch: the first one is complete
+		one := lib.EncodeStream(lib.ScriptParamSchema, params)
+		body = lib.EncodeStream(lib.ScriptParamSchema, params, params)
+		body = body[:len(one)-8+(len(body)-len(one))/2]
+	case "cut-eos":
+		// only the end-of-stream marker is damaged
+		body = lib.EncodeStream(lib.ScriptParamSchema, params)
+		body = body[:len(body)-3]
 	default:
 		body = lib.EncodeStream(lib.ScriptParamSchema, params)
 		body = body[:len(body)/2]
@@ -302,7 +311,7 @@ var propC41 = lib.Prop[c41Case]{
 		"Oracle: the framework's outstanding Arrow bytes (LeakCheckSummary) after the second run equal those after the first (the first run absorbs per-server lazily cached allocations). Non-trivial: a failing path, an external input, or a response cap.",
 	Gen:          genC41,
 	Run:          runC41,
-	Essential:    []string{"transport:pipe", "transport:http", "failing-path", "external-input:params+logs", "response-cap", "externalized-cap:unary", "externalized-cap:stream", "kind:stream"},
+	Essential:    []string{"transport:pipe", "transport:http", "failing-path", "external-input:params+logs", "external-input:cut-in-second", "response-cap", "externalized-cap:unary", "externalized-cap:stream", "kind:stream"},
 	EssentialMin: 300,
 	Assumptions:  []string{"only buffers taken from the package's checked allocator are counted; batches the IPC reader decodes with arrow's default allocator and handler-built batches are outside it"},
 }
